@@ -3,6 +3,7 @@
 import json, os
 V = os.path.dirname(os.path.abspath(__file__))
 E1 = 'lift'
+E1N = "Trusted: clang-14 IR as the semantics of the C++ source, the own IR->C translator lift/ll2c.py (validated each run on concrete vectors against the g++ build of the real functions), CBMC 6.11 + CaDiCaL, lift/models.c (operator new never fails, C++ exceptions as a pending flag), occa::error modelled as a thrown exception, std::stringstream stubbed out."
 E2 = 'emitted'
 E2NOTE = 'Trusted: CBMC 6.11 (C front end + CaDiCaL), the lexical normaliser vlib/okl.py (deletes backend decoration, maps thread-index builtins to harness globals, turns the emitted launch call into a bounded grid loop = the documented launch model), the host compiler for native replay. The translator is the real bin/occa rebuilt from /repo on every run. The program quantifier is enumerated by a generator (stated in evidence); the solver covers all run-time values of each program inside the stated ranges.'
 E2TECH = 'translation validation by bounded model checking (CBMC/SAT): code emitted by the real occa translator vs. the sequential reading of the OKL source on symbolic run-time values; counterexamples replayed natively on the emitted code'
@@ -32,6 +33,8 @@ CLAIMED.update({
    text='CBMC decides for all start/end/step values in the stated range (both signs, empty and wrong-direction ranges, step != 0) that range::length() equals the number of values the sequential loop takes and that element k is start + step*k, with signed-overflow checks on the real code. The array/reduction/forLoop part of the property is outside this check (see level_note).'),
  'C29': dict(level='model_checking', engine=E1, technique='bounded model checking (CBMC/SAT) of the real C-API conversion functions lifted from LLVM IR; counterexamples replayed on the g++ build', note='Trusted: clang-14 IR as the semantics of the C++ source, the own IR->C translator lift/ll2c.py (validated each run by running concrete vectors through the lifted C and the g++ build of the real functions), CBMC 6.11 + CaDiCaL, lift/models.c (operator new never fails, C++ exceptions as a pending flag), occa::error modelled as a thrown exception, std::stringstream stubbed out.' + ' Outside: strings, JSON values and handle lifetimes through the C API (heap + occa::json containers), occaFree.', design='5/C29',
    text='For the 19 scalar constructors of the C API (symbolic selector) and all 2^64 argument bit patterns CBMC decides that the occaType carries the same C type tag, byte size and value bits, that occaType -> occa::primitive -> occaType (untyped and typed) returns the identical occaType for the numeric constructors, and that the kernel-argument conversion yields one non-pointer argument of the same size and bytes for every constructor incl. occaBool.'),
+ 'C10': dict(level='model_checking', engine=E1, technique='bounded model checking (CBMC/SAT) of dtype_t::canBeCastedTo/isCyclic lifted from LLVM IR against a reference rule', note=E1N + ' PARTIAL CLAIM: only the cast-compatibility rule on flattened dtype vectors is decided. Outside: extraction of argument metadata by the parser, the fresh-vs-cached clause (parser + build.json I/O), modeKernel_t::setupRun itself (needs a kernel object with occa::json properties), flattening of struct/tuple/union trees, the byte wildcard. dtype objects are zero-initialised raw storage with the flattened vectors set directly (private members opened in the wrapper TU).', design='5/C10',
+   text='For every pair of flattened dtype vectors of lengths 1..4 (thorough 1..6) over three distinct leaf dtypes, with symbolic leaf choices, CBMC decides that canBeCastedTo answers exactly "equal, or the longer is a whole-number repetition of the shorter", symmetrically and without division by zero or out-of-bounds access; a dtype that flattens to no entries is never castable to a non-empty one and asking does not crash.'),
 })
 NA = {}
 def load_na():
